@@ -149,7 +149,7 @@ fn parse_hexlist(s: &str) -> Option<Option<Vec<Vec<u8>>>> {
 static CHILD: std::sync::atomic::AtomicBool = std::sync::atomic::AtomicBool::new(false);
 
 /// Runs `eval` in a child process (same executable, argument `child-load`) whose address space is
-/// limited to 320 MiB, waits at most 2 s. Used for inputs on which the loader before /repo commit
+/// limited to 320 MiB, waits at most 60 s of wall-clock time (the old loader is caught by the address-space limit; the time limit is only a backstop and generous because a loaded machine may starve the child). Used for inputs on which the loader before /repo commit
 /// 5fa35fa allocated memory proportional to `.nvars`.
 fn child_eval(bytes: &[u8], ctx: &mut Ctx) -> String {
     use std::io::Read;
@@ -160,7 +160,7 @@ fn child_eval(bytes: &[u8], ctx: &mut Ctx) -> String {
         ctx.count("child-abort");
         ctx.fail(
             "header-alloc-by-nvars",
-            &format!("load of a {}-byte header with huge .nvars: {} (limit 320 MiB address space, 2 s)", bytes.len(), what),
+            &format!("load of a {}-byte header with huge .nvars: {} (limit 320 MiB address space, 60 s)", bytes.len(), what),
         );
         "ABORT".to_string()
     };
@@ -203,7 +203,7 @@ fn child_eval(bytes: &[u8], ctx: &mut Ctx) -> String {
             Ok(None) => {}
             Err(_) => break None,
         }
-        if start.elapsed() >= std::time::Duration::from_secs(2) {
+        if start.elapsed() >= std::time::Duration::from_secs(60) {
             timed_out = true;
             let _ = child.kill();
             let _ = child.wait();
